@@ -1,4 +1,67 @@
-import LabreaModel.Eval
+/-
+  C06 — laziness: only bodies on the selected path run, and only when evaluated.
+
+  In the model, building an expression is building a value of the inductive type `Expr`: construction has
+  no access to the interpretation `β` of user callables at all, so "building, composing or overloading
+  never runs a body" holds by typing; the tie to the code for that clause is the `construct` facet (the
+  harness builds every graph through the public API with logging callables and requires an empty log).
+  What is proved here is the evaluation part: the result (value AND event log, which contains every
+  execution of a user callable) of each combinator is a function of the selected path only.
+-/
+import LabreaProps.C05
+import LabreaProps.C04
 namespace Labrea
-theorem c06_placeholder : True := trivial
+
+variable (run : Run) (o : V)
+
+/-- unselected switch branches and the default do not matter: two switches that agree on the dispatch and on
+    the registered branch for the current dispatch value evaluate identically (same value, same events) -/
+theorem switch_runs_only_selected (id : Nat) (d : Expr) (l1 l2 : List (V × Expr)) (df1 df2 : Option Expr) (s s1 : St)
+    (key k1 k2 : V) (br : Expr) (hd : run .evaluate d o s = some (.ok key, s1)) (hh : hashable key = true)
+    (h1 : l1.find? (fun p => pyEq p.1 key) = some (k1, br)) (h2 : l2.find? (fun p => pyEq p.1 key) = some (k2, br)) :
+    switchOp run id d l1 df1 .evaluate o s = switchOp run id d l2 df2 .evaluate o s := by
+  rw [switch_registered run o id d l1 df1 s s1 key k1 br hd hh h1, switch_registered run o id d l2 df2 s s1 key k2 br hd hh h2]
+
+/-- coalesce members after the first success are not touched -/
+theorem coalesce_runs_until_first_success (m : Expr) (r1 r2 : List Expr) (last : Option Err) (s s1 s2 : St) (u v : V)
+    (hv : run .validate m o s = some (.ok u, s1)) (he : run .evaluate m o s1 = some (.ok v, s2)) :
+    coalesceDelegate run .evaluate o last (m :: r1) s = coalesceDelegate run .evaluate o last (m :: r2) s := by
+  rw [coalesce_first_evaluable run o m r1 last s s1 s2 u v hv he, coalesce_first_evaluable run o m r2 last s s1 s2 u v hv he]
+
+/-- the cases after the first matching one are not evaluated -/
+theorem case_runs_until_first_match (env : Env) (id : Nat) (d : Expr) (df1 df2 : Option Expr) (v : V) (seen : List Expr)
+    (c r : Expr) (r1 r2 : List (Expr × Expr)) (s s1 s2 : St) (cf b : V)
+    (hc : run .evaluate c o s = some (.ok cf, s1)) (hb : call env cf [v] [] s1 = some (.ok b, s2)) (ht : b.truthy = true) :
+    chooseCase env run id d df1 o v seen ((c, r) :: r1) s = chooseCase env run id d df2 o v seen ((c, r) :: r2) s := by
+  rw [case_first_match run o env id d df1 v seen c r r1 s s1 s2 cf b hc hb ht,
+      case_first_match run o env id d df2 v seen c r r2 s s1 s2 cf b hc hb ht]
+
+/-- an Option's default is not evaluated when its key is present -/
+theorem default_not_evaluated_when_present (env : Env) (n id : Nat) (key : String) (self : Expr) (d1 d2 dom : Option Expr)
+    (raw : V) (s : St) (hk : getDotted key o = .found raw) :
+    optionOp env run n self id key d1 dom .evaluate o s = optionOp env run n self id key d2 dom .evaluate o s :=
+  option_present_ignores_default env run n id key o self d1 d2 dom raw s hk
+
+/-- a body runs only after all of its own arguments have been produced: `FunctionApplication.evaluate` is
+    "function, positional arguments in order, keyword arguments in order, then the call" -/
+theorem args_before_body (env : Env) (id : Nat) (f : Expr) (args : List Expr) (kw : List (String × Expr)) (s s1 : St) (fv : V)
+    (hf : run .evaluate f o s = some (.ok fv, s1)) :
+    applicationOp env run id f args kw false .evaluate o s =
+      ((do
+        let (as, ks) ← pseudo .evaluate (tid id 1) (do
+          let as ← pseudo .evaluate (tid id 2) (mapM' (fun x => run .evaluate x o) args)
+          let ks ← pseudo .evaluate (tid id 3) (mapM' (fun (p : String × Expr) => do
+            let v ← run .evaluate p.2 o
+            pure (p.1, v)) kw)
+          pure (as, ks))
+        call env fv as ks) : M V) s1 :=
+  funapp_args run o env id f args kw s s1 fv hf
+
+/-- the input of `>>` / pipeline application is produced before the step applied to it -/
+theorem source_before_step (env : Env) (n id : Nat) (x f : Expr) (s s1 : St) (err : Err)
+    (hx : ∀ i es, x ≠ .iter i es) (hm : ∀ i y its, x ≠ .map i y its)
+    (h1 : run .evaluate x o s = some (.error err, s1)) :
+    nodeOp env run n .evaluate (.apply id x f) o s = some (.error err, s1) := by
+  cases x <;> simp_all [nodeOp, bind_run]
+
 end Labrea
